@@ -163,6 +163,9 @@ func (u *Unit) checkExit(st *State, fr *Frame) {
 	}
 	u.reached["exit return"] = true
 	u.publishCheck(st, pos)
+	if u.c.IterFn != "" && !u.c.Flags["trusted"] {
+		u.iterCountCheck(st, pos)
+	}
 	sev := u.specEv(st, pos, u.name+" ensures")
 	var vals []Value
 	if len(u.resultObjs) > 0 && len(fr.results) > 0 {
@@ -252,6 +255,10 @@ func (u *Unit) frameCheckWith(st *State, pos token.Pos, resBinds map[string]Valu
 			}
 			if _, ok := u.eng.cs.Ghosts[id.Name]; ok {
 				get("G:" + id.Name).wildcard = true
+				continue
+			}
+			if id.Name == "calls" {
+				get("G:calls").wildcard = true // call counters of any function value
 				continue
 			}
 		}
@@ -654,4 +661,32 @@ func mentionsResult(c *Contract, e ast.Expr) bool {
 		return !found
 	})
 	return found
+}
+
+// iterCountCheck: at a normal return the callback named by the unit's iterates clause has been called exactly count times.
+func (u *Unit) iterCountCheck(st *State, pos token.Pos) {
+	var fobj types.Object
+	if u.sig != nil {
+		for i := 0; i < u.sig.Params().Len(); i++ {
+			if u.sig.Params().At(i).Name() == u.c.IterFn {
+				fobj = u.sig.Params().At(i)
+			}
+		}
+	}
+	if fobj == nil {
+		u.subsetErr(pos, "iterates names an unknown parameter %s", u.c.IterFn)
+		return
+	}
+	fv, ok := u.entry.env[fobj]
+	if !ok || fv.K != vScalar {
+		u.subsetErr(pos, "iterates: callback parameter %s has no scalar value", u.c.IterFn)
+		return
+	}
+	as := arraySort(SRef, SInt)
+	u.famSort("G:calls", as)
+	oev := u.specEv(u.entry.clone(), pos, u.name+" iterates")
+	oev.old = u.entry
+	n := oev.expr(u.c.IterCount.Expr)
+	done := app("-", app("select", u.fam(st, "G:calls", as), fv.T), app("select", u.fam(u.entry, "G:calls", as), fv.T))
+	u.emit(st, "iter/count", app("=", done, n.T), u.c.IterFn+" was called exactly "+u.c.IterCount.Text+" times")
 }
